@@ -31,6 +31,9 @@ func coreC17(tier string) []RunSpec {
 	for k := 0; k < 8; k++ {
 		out = append(out, RunSpec{Profile: "core:mixed-keysets-same-fee", Params: map[string]int{"scenario": 5, "fee": 1, "mints": 1, "k": k}})
 	}
+	for k := 0; k < 6; k++ {
+		out = append(out, RunSpec{Profile: "core:failed-pending-melt-reclaimed-first", Params: map[string]int{"scenario": 7, "fee": k % 3, "mints": 1, "k": k}})
+	}
 	for k := 0; k < 4; k++ {
 		out = append(out, RunSpec{Profile: "core:melt-pending-past-expiry", Params: map[string]int{"scenario": 3, "fee": k % 3, "mints": 1, "k": k}})
 	}
@@ -152,6 +155,46 @@ func runC17(rc *RunCtx) {
 		ww.Settle()
 		ww.CheckWallets("settled")
 		rc.S.Probe("c17_mixed_keysets_same_fee")
+		rc.Nontrivial = true
+		return
+	}
+	if rc.P("scenario", 0) == 7 {
+		// a melt goes pending, its payment then fails, and the first thing the wallet does is reclaim
+		// (before it ever looks at the quote), with nothing else pending; then it spends and reconciles
+		ww.step = 0
+		ww.W.LN.ForceNextPay = "pending"
+		ww.StepMelt()
+		ww.W.LN.ForceNextPay = ""
+		ww.CheckWallets("step")
+		for _, k := range ww.W.LN.InflightKeys() {
+			ww.W.LN.ResolveInflight(k, false)
+		}
+		for _, w := range ww.Wallets {
+			if len(ww.PendQ[w]) == 0 {
+				continue
+			}
+			ww.step++
+			ww.op("w.reclaim remove=false")
+			ww.W.WalletOp(w, ww.name("reclaim."+w), nil, func(wl *wallet.Wallet) { wl.ReclaimUnspentProofs() })
+			ww.CheckWallets("step")
+		}
+		for i := 0; i < 3; i++ {
+			ww.step++
+			ww.forceSendAll = true
+			ww.StepSend()
+			ww.forceSendAll = false
+			ww.CheckWallets("step")
+		}
+		for _, w := range ww.Wallets {
+			for _, qid := range ww.PendQ[w] {
+				ww.op("w.checkmelt")
+				ww.W.WalletOp(w, ww.name("chk."+w), nil, func(wl *wallet.Wallet) { wl.CheckMeltQuoteState(qid) })
+				ww.CheckWallets("step")
+			}
+		}
+		ww.Settle()
+		ww.CheckWallets("settled")
+		rc.S.Probe("c17_reclaim_before_quote_check")
 		rc.Nontrivial = true
 		return
 	}
